@@ -196,7 +196,8 @@ func isAdd(op string) bool { return op != "compile" }
 func (engine) Run(ci any) lib.Result {
 	c := ci.(*Case)
 	res := lib.Result{}
-	first := execute(c, true)
+	values := newPool()
+	first := execute(c, true, values)
 	res.Obs = Obs{Calls: first.obs, Intact: first.intact}
 	res.CoqTerm = coqCase(c, first.obs, first.intact)
 
@@ -335,7 +336,30 @@ func (engine) Run(ci any) lib.Result {
 	// (5) determinism: same outcome on every attempt
 	classVaries := false
 	for r := 1; r < reps; r++ {
-		again := execute(c, false)
+		// attempts 1 and 2 start from fresh builder values; attempts 3 and 4 build the same construction
+		// again from the VALUES of attempt 0 (its lambdas, branches, Parallel / ChainBranch objects, sub
+		// graphs, mapping and option slices), as a program does that declares them once
+		shared := r >= reps-2
+		var again execResult
+		if shared {
+			again = execute(c, true, values)
+		} else {
+			again = execute(c, false, nil)
+		}
+		if shared {
+			// the runnables of the two attempts compute the same function
+			for j := range first.runs {
+				if j >= len(again.runs) || first.runs[j].at != again.runs[j].at {
+					break
+				}
+				for k := 0; k < nInputs; k++ {
+					a, b := first.runs[j].snap[k], again.runs[j].snap[k]
+					if a != "" && b != "" && a != b {
+						fail("shared-values", fmt.Sprintf("attempt %d (built from the builder values of attempt 0): the runnable of Compile #%d gives %s on input %d, attempt 0 gave %s", r, first.runs[j].at, b, k, a))
+					}
+				}
+			}
+		}
 		for i := range first.obs {
 			a, b := first.obs[i], again.obs[i]
 			if c.FE != "workflow" && strings.Join(a.State, ";") != strings.Join(b.State, ";") {
@@ -354,6 +378,13 @@ func (engine) Run(ci any) lib.Result {
 	}
 	if classVaries {
 		res.Tags = append(res.Tags, "wf-error-class-varies")
+	}
+	// (7) the runnables of attempt 0 are unaffected by the later attempts made from the same builder values
+	if len(first.runs) > 0 {
+		if ok, what, _ := recheck(first.runs, "the same construction was built again from the same builder values"); !ok {
+			fail("shared-values", what)
+		}
+		res.Tags = append(res.Tags, "rebuilt-from-shared-values")
 	}
 	return res
 }
